@@ -49,7 +49,14 @@ static size_t sink_read(int isfile, var s, char* out, size_t cap) {
 
 static char fmt[8192], outb[1 << 16], tmp[8192];
 
+/* a number type of the program's own that can be read both ways (C_Int and C_Float instances): an integer conversion prints its
+   integer value, a floating conversion its floating value - whichever was asked of it first */
+struct Both { int64_t i; double d; };
+static int64_t Both_C_Int(var self) { return ((struct Both*)self)->i; }
+static double Both_C_Float(var self) { return ((struct Both*)self)->d; }
+var Both = Cello(Both, Instance(C_Int, Both_C_Int), Instance(C_Float, Both_C_Float));
 static var mkarg(char kind, const char* v) {
+  if (kind == 'B') { struct Both* b = alloc_raw(Both); b->i = strtoll(v, NULL, 10); b->d = (double)b->i + 0.25; return b; }
   if (kind == 'I') return new_raw(Int, $I(strtoll(v, NULL, 10)));
   if (kind == 'F') { uint64_t b = strtoull(v, NULL, 16); double d; memcpy(&d, &b, 8); return new_raw(Float, $F(d)); }
   if (kind == 'S') { static char b[4096]; unhex(v, b, sizeof b); return new_raw(String, $S(b)); }
@@ -83,7 +90,10 @@ int main(int argc, char** argv) {
           char spec[256]; unhex(w + 1, spec, sizeof spec); strcat(fmt, spec);
           var a = mkarg(kind, val); args[na++] = a; nconv++;
           char r[16384]; int n = 0;
-          if (kind == 'I') n = snprintf(r, sizeof r, spec, c_int(a));            /* the value exactly as print_to hands it to the C library */
+          int fconv = spec[0] && strchr("fFeEgGaA", spec[strlen(spec) - 1]) != NULL;
+          if (kind == 'B') n = fconv ? (strchr(spec, 'L') ? snprintf(r, sizeof r, spec, (long double)((struct Both*)a)->d) : snprintf(r, sizeof r, spec, ((struct Both*)a)->d))
+                                     : snprintf(r, sizeof r, spec, ((struct Both*)a)->i);
+          else if (kind == 'I') n = snprintf(r, sizeof r, spec, c_int(a));            /* the value exactly as print_to hands it to the C library */
           else if (kind == 'F') n = strchr(spec, 'L') ? snprintf(r, sizeof r, spec, (long double)c_float(a)) : snprintf(r, sizeof r, spec, c_float(a));
           else if (kind == 'S') n = snprintf(r, sizeof r, spec, c_str(a));
           else n = snprintf(r, sizeof r, spec, a);
